@@ -718,6 +718,7 @@ func Route(w *load.World, c *core.Collector) {
 	}
 	// Dest initialisers
 	nDest := 0
+	handedDest := map[*ssa.Store][]ssa.Value{}
 	for _, f := range clusterFns(w) {
 		for _, b := range f.Blocks {
 			for _, in := range b.Instrs {
@@ -731,6 +732,44 @@ func Route(w *load.World, c *core.Collector) {
 				}
 				nDest++
 				o := provDeep(w, st.Val)
+				// the destination is a parameter of a literal that a helper calls ("forEachShard(ids,
+				// func(id, owner string) {...})"): what the helper passes for it
+				if f.Parent() != nil {
+					dvp := st.Val
+					if ld, ok := dvp.(*ssa.UnOp); ok && ld.Op == token.MUL {
+						if al, ok := ld.X.(*ssa.Alloc); ok {
+							if sv := ssax.SingleStore(al); sv != nil {
+								dvp = sv
+							}
+						}
+					}
+					if par, ok := dvp.(*ssa.Parameter); ok && par.Parent() == f {
+						pi := -1
+						for i, q := range f.Params {
+							if q == par {
+								pi = i
+							}
+						}
+						for _, g := range clusterFns(w) {
+							for _, gb := range g.Blocks {
+								for _, gi := range gb.Instrs {
+									ci, ok := gi.(ssa.CallInstruction)
+									if !ok || ci.Common().IsInvoke() || ci.Common().StaticCallee() != nil || pi < 0 || pi >= len(ci.Common().Args) {
+										continue
+									}
+									for _, lit := range funcValuesOf(w, ci.Common().Value, 0) {
+										if lit == f {
+											for k := range provDeep(w, ci.Common().Args[pi]) {
+												o[k] = true
+											}
+											handedDest[st] = append(handedDest[st], ci.Common().Args[pi])
+										}
+									}
+								}
+							}
+						}
+					}
+				}
 				// the destination is the key of a map that is ranged over ("per destination: what goes
 				// there"): what the keys put into that map are
 				dv := st.Val
@@ -838,7 +877,7 @@ func Route(w *load.World, c *core.Collector) {
 				}
 				key := "dest:" + load.FnKey(f)
 				switch {
-				case viaHash && destLeaf(w, st.Val, 0) == leafOther:
+				case viaHash && (len(handedDest[st]) == 0 && destLeaf(w, st.Val, 0) == leafOther || anyLeafOther(w, handedDest[st])):
 					c.Add("ROUTE", key, core.Violation, w.At(in), "on some path the destination is not the RendezvousHash owner at all (a shortcut returns this node's own name or a fixed server): two nodes with the same server list then disagree about the owner", "C13", "C17")
 				case !viaHash:
 					c.Add("ROUTE", key, core.Violation, w.At(in), fmt.Sprintf("destination is not computed by RendezvousHash (origins %v)", o.Keys()), "C13", "C17")
@@ -4741,6 +4780,15 @@ func isShardRegistry(v ssa.Value) bool {
 
 // shardRegistryRow: the struct field that holds the registry and the mutex field next to it, as
 // "pkg.Type.field" names; empty when not found.
+func anyLeafOther(w *load.World, vs []ssa.Value) bool {
+	for _, v := range vs {
+		if destLeaf(w, v, 0) == leafOther {
+			return true
+		}
+	}
+	return false
+}
+
 func shardRegistryRow(w *load.World) (field, lock string) {
 	pkg := w.ByPath[clusterPkg]
 	if pkg == nil {
